@@ -2105,8 +2105,8 @@ int64 Atoll(const char * str)
       negative = (negative == false);
       s++;
    }
-   const int64 ret = (int64) Atoull(s);
-   return negative ? -ret : ret;
+   const uint64 ret = Atoull(s);
+   return (int64) (negative ? (((uint64)0)-ret) : ret);  // negate as unsigned, so that the most-negative value isn't a signed overflow
 }
 
 #ifdef MUSCLE_SINGLE_THREAD_ONLY
